@@ -3,6 +3,7 @@ package main
 import (
 	"fmt"
 	"go/ast"
+	"go/constant"
 	"go/token"
 	"go/types"
 	"strings"
@@ -47,6 +48,23 @@ func (t *tr) call(x *ast.CallExpr, tv types.TypeAndValue, pre *[]hoist, underSC 
 		}
 		return wrap(it, t.expr(x.Args[0], pre, underSC))
 	}
+	if sel, ok := x.Fun.(*ast.SelectorExpr); ok {
+		if p, ok := sel.X.(*ast.Ident); ok && p.Name == "fmt" && sel.Sel.Name == "Errorf" {
+			if pn, ok := t.info.Uses[p].(*types.PkgName); ok && pn.Imported().Path() == "fmt" {
+				// an opaque non-nil error named after its format; the arguments are evaluated (they must be free of
+				// index / slice reads, which could panic) and dropped
+				ftv := t.info.Types[x.Args[0]]
+				if ftv.Value == nil {
+					fail(t, x, "fmt.Errorf with a non-constant format")
+				}
+				for _, a := range x.Args[1:] {
+					var scratch []hoist
+					t.expr(a, &scratch, true)
+				}
+				return "(Some " + coqString("fmt.Errorf: "+constant.StringVal(ftv.Value)) + ")"
+			}
+		}
+	}
 	var args []string
 	for _, a := range x.Args {
 		args = append(args, t.expr(a, pre, underSC))
@@ -58,11 +76,11 @@ func (t *tr) call(x *ast.CallExpr, tv types.TypeAndValue, pre *[]hoist, underSC 
 				return "(go_len " + args[0] + ")"
 			}
 		}
-		if t.want[f.Name] {
+		if _, isf := t.info.Uses[f].(*types.Func); isf && t.want[f.Name] {
 			if _, done := t.eff[f.Name]; !done {
 				fail(t, x, "call of %s before its translation (order the function list)", f.Name)
 			}
-			if t.eff[f.Name] {
+			if t.eff[f.Name] || len(t.mut[f.Name]) > 0 || len(t.mutF[f.Name]) > 0 {
 				fail(t, x, "call of effectful %s inside an expression", f.Name)
 			}
 			return "(go_" + f.Name + " " + strings.Join(args, " ") + ")"
@@ -78,35 +96,55 @@ func (t *tr) call(x *ast.CallExpr, tv types.TypeAndValue, pre *[]hoist, underSC 
 	return ""
 }
 
-// effCall: x is a call of an effectful translated function -> its code, else ""
+// effCall: e is a call of a translated function or method (on the current receiver) that is effectful or writes through
+// its parameters / receiver -> its code and the caller variables that receive what it wrote, else ""
 func (t *tr) effCall(e ast.Expr, pre *[]hoist) (string, []string) {
 	c, ok := e.(*ast.CallExpr)
 	if !ok {
 		return "", nil
 	}
-	f, ok := c.Fun.(*ast.Ident)
-	if !ok || !t.want[f.Name] || !t.eff[f.Name] {
+	key := t.calleeKey(c)
+	if key == "" || !t.want[key] {
 		return "", nil
 	}
-	if _, isf := t.info.Uses[f].(*types.Func); !isf {
-		return "", nil
+	if _, done := t.eff[key]; !done {
+		fail(t, e, "call of %s before its translation (order the function list)", key)
+	}
+	if !t.eff[key] && len(t.mut[key]) == 0 && len(t.mutF[key]) == 0 {
+		return "", nil // pure: an ordinary expression
 	}
 	var muts []string
-	for _, i := range t.mut[f.Name] {
+	for _, i := range t.mut[key] {
 		id, ok := c.Args[i].(*ast.Ident)
 		if !ok {
-			fail(t, e, "argument %d of %s is written by the callee and must be a variable", i, f.Name)
+			fail(t, e, "argument %d of %s is written by the callee and must be a variable", i, key)
 		}
 		muts = append(muts, v(id.Name))
 	}
-	if t.pure {
-		fail(t, e, "effectful call in a pure function")
-	}
 	var args []string
+	if strings.Contains(key, ".") {
+		for _, f := range t.recvFields {
+			args = append(args, v(t.recvName+"."+f.Name()))
+		}
+		for _, f := range t.mutF[key] {
+			muts = append(muts, v(t.recvName+"."+f))
+		}
+	}
 	for _, a := range c.Args {
 		args = append(args, t.expr(a, pre, false))
 	}
-	return "(go_" + f.Name + " fuel " + strings.Join(args, " ") + ")", muts
+	fuel := ""
+	if t.eff[key] {
+		if t.pure {
+			fail(t, e, "effectful call in a pure function")
+		}
+		fuel = "fuel "
+	}
+	code := "(" + coqName(key) + " " + fuel + strings.Join(args, " ") + ")"
+	if !t.eff[key] {
+		code = "(Val " + code + ")"
+	}
+	return code, muts
 }
 
 // pack: a function that writes through slice parameters returns them after its results
@@ -144,6 +182,11 @@ func (t *tr) define(id *ast.Ident, e env) env {
 }
 
 func lhsName(t *tr, x ast.Expr) string {
+	if sel, ok := x.(*ast.SelectorExpr); ok {
+		if id, ok := sel.X.(*ast.Ident); ok && t.recvName != "" && id.Name == t.recvName {
+			return v(t.recvName + "." + sel.Sel.Name)
+		}
+	}
 	id, ok := x.(*ast.Ident)
 	if !ok {
 		fail(t, x, "unsupported assignment target")
@@ -199,23 +242,81 @@ func (t *tr) block(stmts []ast.Stmt, e env, retf func(string) string, k func(env
 			}
 		}
 		return t.withPre(x, pre, letPat(names, tuple(vals), rest(e2)))
+	case *ast.SwitchStmt:
+		if x.Init != nil {
+			fail(t, x, "switch with init statement")
+		}
+		var pre []hoist
+		tag := ""
+		if x.Tag != nil {
+			tag = t.expr(x.Tag, &pre, false)
+		}
+		return t.withPre(x, pre, t.join(e, rest, func(after func(env) string) string {
+			var def *ast.CaseClause
+			type arm struct{ cond, body string }
+			var arms []arm
+			for _, cs := range x.Body.List {
+				cc := cs.(*ast.CaseClause)
+				if cc.List == nil {
+					def = cc
+					continue
+				}
+				var conds []string
+				for _, ce := range cc.List {
+					var cpre []hoist
+					c := t.expr(ce, &cpre, false)
+					if len(cpre) > 0 {
+						fail(t, ce, "index read in a case expression")
+					}
+					if tag != "" {
+						c = "(Z.eqb sw " + c + ")"
+					}
+					conds = append(conds, c)
+				}
+				cond := conds[0]
+				for _, c := range conds[1:] {
+					cond = "(orb " + cond + " " + c + ")"
+				}
+				arms = append(arms, arm{cond, t.block(cc.Body, e, retf, after)})
+			}
+			code := ""
+			if def != nil {
+				code = t.block(def.Body, e, retf, after)
+			} else {
+				code = after(e)
+			}
+			for i := len(arms) - 1; i >= 0; i-- {
+				code = fmt.Sprintf("if %s then\n  %s\n  else\n  %s", arms[i].cond, arms[i].body, code)
+			}
+			if tag != "" {
+				if _, ok := t.intType(t.info.Types[x.Tag].Type); !ok {
+					fail(t, x, "switch on %s", t.info.Types[x.Tag].Type)
+				}
+				code = "let sw := " + tag + " in\n  " + code
+			}
+			return code
+		}))
 	case *ast.IfStmt:
 		if x.Init != nil {
-			fail(t, x, "if with init statement")
+			f2 := *x
+			f2.Init = nil
+			return t.block([]ast.Stmt{x.Init, &f2}, e, retf, func(env) string { return rest(e) })
 		}
 		var pre []hoist
 		c := t.expr(x.Cond, &pre, false)
-		a := t.block(x.Body.List, e, retf, func(env) string { return rest(e) })
-		var b string
-		switch el := x.Else.(type) {
-		case nil:
-			b = rest(e)
-		case *ast.BlockStmt:
-			b = t.block(el.List, e, retf, func(env) string { return rest(e) })
-		case *ast.IfStmt:
-			b = t.block([]ast.Stmt{el}, e, retf, func(env) string { return rest(e) })
-		}
-		return t.withPre(x, pre, fmt.Sprintf("if %s then\n  %s\n  else\n  %s", c, a, b))
+		return t.withPre(x, pre, t.join(e, rest, func(after func(env) string) string {
+			a := t.block(x.Body.List, e, retf, after)
+			var b string
+			switch el := x.Else.(type) {
+			case nil:
+				b = after(e)
+			case *ast.BlockStmt:
+				b = t.block(el.List, e, retf, after)
+			case *ast.IfStmt:
+				b = t.block([]ast.Stmt{el}, e, retf, after)
+			}
+			return fmt.Sprintf("if %s then\n  %s\n  else\n  %s", c, a, b)
+		}))
 	case *ast.ForStmt:
 		if t.pure {
 			fail(t, x, "loop in a pure function")
@@ -262,7 +363,13 @@ func (t *tr) block(stmts []ast.Stmt, e env, retf func(string) string, k func(env
 				rs = []string{"tt"}
 			}
 		}
-		for _, r := range x.Results {
+		for i, r := range x.Results {
+			if id, ok := r.(*ast.Ident); ok && id.Name == "nil" && len(x.Results) == len(t.resultTypes) {
+				if _, isNil := t.info.Uses[id].(*types.Nil); isNil {
+					rs = append(rs, t.zero(r, t.resultTypes[i]))
+					continue
+				}
+			}
 			rs = append(rs, t.expr(r, &pre, false))
 		}
 		return t.withPre(x, pre, retf(t.pack(tuple(rs))))
@@ -355,15 +462,27 @@ func (t *tr) coqType(n ast.Node, ty types.Type) string {
 }
 
 func (t *tr) function(fd *ast.FuncDecl) string {
-	t.pure = !t.eff[fd.Name.Name]
 	t.tmp = 0
 	t.namedResults = nil
 	t.curMut = nil
-	t.mut[fd.Name.Name] = t.mutated(fd)
+	t.joinN = 0
+	key := funcKey(fd)
+	t.pure = !t.eff[key]
+	t.setRecv(fd)
+	t.mut[key] = t.mutated(fd)
 	var e env
 	var params []string
 	if !t.pure {
 		params = append(params, "(fuel : nat)")
+	}
+	for _, f := range t.recvFields {
+		n := t.recvName + "." + f.Name()
+		params = append(params, fmt.Sprintf("(%s : %s)", v(n), t.coqType(fd, f.Type())))
+		e = append(e, n)
+	}
+	t.mutF[key] = t.mutatedFields(fd)
+	for _, f := range t.mutF[key] {
+		t.curMut = append(t.curMut, v(t.recvName+"."+f))
 	}
 	for _, f := range fd.Type.Params.List {
 		if len(f.Names) == 0 {
@@ -380,14 +499,17 @@ func (t *tr) function(fd *ast.FuncDecl) string {
 	}
 	var rtys []string
 	var zeroNames, zeroVals []string
+	t.resultTypes = nil
 	if fd.Type.Results != nil {
 		for _, f := range fd.Type.Results.List {
 			ty := t.info.Types[f.Type].Type
 			if len(f.Names) == 0 {
 				rtys = append(rtys, t.coqType(f, ty))
+				t.resultTypes = append(t.resultTypes, ty)
 			}
 			for _, id := range f.Names {
 				rtys = append(rtys, t.coqType(f, ty))
+				t.resultTypes = append(t.resultTypes, ty)
 				e = append(e, id.Name)
 				t.namedResults = append(t.namedResults, v(id.Name))
 				zeroNames = append(zeroNames, v(id.Name))
@@ -409,14 +531,21 @@ func (t *tr) function(fd *ast.FuncDecl) string {
 	if len(zeroNames) > 0 {
 		body = letPat(zeroNames, tuple(zeroVals), body)
 	}
-	for range t.curMut {
+	for range t.mut[key] {
 		rty += " * list Z"
+	}
+	for _, f := range t.mutF[key] {
+		for _, rf := range t.recvFields {
+			if rf.Name() == f {
+				rty += " * " + t.coqType(fd, rf.Type())
+			}
+		}
 	}
 	if !t.pure {
 		rty = "gores (" + rty + ")"
 	}
 	pos := t.fset.Position(fd.Pos())
-	return fmt.Sprintf("(* %s:%d func %s *)\nDefinition go_%s %s : %s :=\n  %s.\n", shortPath(pos.Filename), pos.Line, fd.Name.Name, fd.Name.Name, strings.Join(params, " "), rty, body)
+	return fmt.Sprintf("(* %s:%d func %s *)\nDefinition %s %s : %s :=\n  %s.\n", shortPath(pos.Filename), pos.Line, key, coqName(key), strings.Join(params, " "), rty, body)
 }
 
 func shortPath(p string) string {
@@ -450,8 +579,8 @@ func (t *tr) mutated(fd *ast.FuncDecl) []int {
 				}
 			}
 		case *ast.CallExpr:
-			if f, ok := x.Fun.(*ast.Ident); ok {
-				for _, k := range t.mut[f.Name] {
+			if ck := t.calleeKey(x); ck != "" {
+				for _, k := range t.mut[ck] {
 					if id, ok := x.Args[k].(*ast.Ident); ok {
 						if j, ok := idx[id.Name]; ok {
 							set[j] = true
@@ -477,4 +606,68 @@ func (t *tr) mutated(fd *ast.FuncDecl) []int {
 		fail(t, fd, "internal: pure function writes a parameter")
 	}
 	return res
+}
+
+// receiver fields the method assigns (directly, or through a translated method it calls on the same receiver), in
+// declaration order
+func (t *tr) mutatedFields(fd *ast.FuncDecl) []string {
+	if t.recvName == "" {
+		return nil
+	}
+	set := map[string]bool{}
+	mark := func(x ast.Expr) {
+		if sel, ok := x.(*ast.SelectorExpr); ok {
+			if id, ok := sel.X.(*ast.Ident); ok && id.Name == t.recvName {
+				set[sel.Sel.Name] = true
+			}
+		}
+	}
+	ast.Inspect(fd.Body, func(n ast.Node) bool {
+		switch x := n.(type) {
+		case *ast.AssignStmt:
+			for _, l := range x.Lhs {
+				mark(l)
+			}
+		case *ast.IncDecStmt:
+			mark(x.X)
+		case *ast.CallExpr:
+			if ck := t.calleeKey(x); ck != "" {
+				for _, f := range t.mutF[ck] {
+					set[f] = true
+				}
+			}
+		}
+		return true
+	})
+	var res []string
+	for _, f := range t.recvFields {
+		if set[f.Name()] {
+			res = append(res, f.Name())
+		}
+	}
+	return res
+}
+
+// join: code generated by gen may continue with the rest of the enclosing block from several places; when it does so
+// more than once the rest becomes a local function (a join point) over the variables in scope instead of being copied
+func (t *tr) join(e env, rest func(env) string, gen func(k func(env) string) string) string {
+	t.joinN++
+	name := fmt.Sprintf("k%d", t.joinN)
+	ph := "\x00" + name + "\x00"
+	uses := 0
+	code := gen(func(env) string { uses++; return ph })
+	switch uses {
+	case 0:
+		return code
+	case 1:
+		return strings.Replace(code, ph, rest(e), 1)
+	}
+	var names []string
+	for _, n := range e {
+		names = append(names, v(n))
+	}
+	if len(names) == 0 {
+		return fmt.Sprintf("let %s := (fun _ : unit => %s) in\n  %s", name, rest(e), strings.ReplaceAll(code, ph, "("+name+" tt)"))
+	}
+	return fmt.Sprintf("let %s := (fun st => %s) in\n  %s", name, letPat(names, "st", rest(e)), strings.ReplaceAll(code, ph, "("+name+" "+tuple(names)+")"))
 }
